@@ -66,3 +66,7 @@ claim("C18", "reference-model monitor: exact decimal model for the integer-value
       "abs/ceil/floor/toInt/roundBank are compared exactly, round by its contract (integer within 1/2), max/min by 'an argument bounding the others', sqrt/exp/ln/log by relative error <= 5e-15 against 320-bit series evaluations and by their inverse laws, toFloat/toString/finite by parse-back and NaN rules, & | ^ ~ against int64 two's complement; arguments cover ties of both parities and signs, near-integers, zero, -0 and magnitudes up to 1e30.",
       "Trusts math/big and the 120-line series code; observed maximum relative errors are reported in the evidence (about 5e-16).",
       "5/C18")
+claim("C11", "reference-model monitor: bridge model over reflectively synthesised, recording host functions",
+      "Host functions are synthesised with reflect.FuncOf/MakeFunc for signatures over 18 parameter kinds, variadic tails and leading contexts; every invocation records its context and arguments. Argument lists of length 0..n+2 over 25 argument values, with and without spread, are passed through real formulas (each argument wrapped in an order-recording call); the bridge model decides call vs reject and the value each parameter must receive; invocation count (1 or 0), received values, argument evaluation order, context identity, error wrapping with the function's name and number normalisation of returned Go numbers are compared.",
+      "Trusts the 120-line bridge model as my reading of the statement; combinations it leaves open are skipped and counted.",
+      "5/C11")
